@@ -261,15 +261,28 @@ def cypher_family(tier, seed, sessions=None, tag="main"):
     selftest = {"ran": False}
     if sessions is None:
         cl, done = corrupt_for_selftest(lines, {f["at"] for f in findings})
+        # only the sessions that hold a corrupted line are judged again (the others are unchanged)
+        changed = [i for i in range(len(lines)) if cl[i] != lines[i]]
+        starts = [i for i, l in enumerate(lines) if '"ev":"session"' in l[:40]] or [0]
+        keep = []
+        for k, a in enumerate(starts):
+            b = starts[k + 1] if k + 1 < len(starts) else len(lines)
+            if any(a <= i < b for i in changed):
+                keep += list(range(a, b))
+        if starts[0] > 0:
+            keep = list(range(0, starts[0])) + keep
         stp = os.path.join(cd, "selftest.ndjson")
-        open(stp, "w").write("\n".join(cl) + "\n")
-        sf, _ = vlib.tlc_trace("CypherTrace", stp, "cytrace-selftest-" + tier)
+        open(stp, "w").write("\n".join(cl[i] for i in keep) + "\n")
+        sf, _ = vlib.tlc_trace("CypherTrace", stp, "cytrace-selftest-" + tier, timeout=7200)
+        for f in sf:
+            f["at"] = keep[f["at"] - 1] + 1
         base = {(f["at"], f["kind"]) for f in findings}
         new = {KIND_PROP.get(f["case"]) for f in sf if (f["at"], f["kind"]) not in base}
         missing = {KIND_PROP[k] for k in done} - new
         if missing:
             raise ToolError("binding self-test failed: corrupted observations accepted for %s" % sorted(missing))
-        selftest = {"ran": True, "kinds_corrupted": sorted(done), "new_findings_on_corrupted_trace": len(sf) - len(findings)}
+        selftest = {"ran": True, "kinds_corrupted": sorted(done), "sessions_rejudged_lines": len(keep),
+                    "new_findings_on_corrupted_trace": len([f for f in sf if (f["at"], f["kind"]) not in base])}
     res = {"tier": tier, "seed": seed, "trace": tp, "sessions_file": sp, "stats": stats, "tlc": info,
            "findings": findings, "census": census, "errors_by_kind": errs, "rows_by_kind": nrows,
            "nontrivial_by_kind": nonempty, "selftest": selftest,
